@@ -11,7 +11,11 @@ wt=/tmp/mxwt/$id; vd=/tmp/mxv/$id
 rm -rf $wt $vd; mkdir -p /tmp/mxwt $vd
 git -C /repo worktree add -q --detach $wt HEAD || exit 2
 cp -r /verif/fixtures /verif/known_findings.json /verif/properties.jsonl $vd/
-if ! git -C $wt apply $d/patch.diff 2>/dev/null; then echo "$id PATCH-DOES-NOT-APPLY"; git -C /repo worktree remove --force $wt; rm -rf $vd; exit 0; fi
+if ! git -C $wt apply $d/patch.diff 2>/dev/null; then
+  # the repository moved on (fix: commits) since the patch was written: try a three-way merge
+  if ! git -C $wt apply --3way $d/patch.diff >/dev/null 2>&1 || git -C $wt diff --name-only --diff-filter=U | grep -q .; then
+    echo "$id PATCH-DOES-NOT-APPLY"; git -C /repo worktree remove --force $wt; rm -rf $vd; exit 0; fi
+fi
 out=$(cd /verif && bin/loxcheck -props $props -tier ${TIER:-quick} -repo $wt -verif $vd 2>&1)
 echo "$out" | awk -v id=$id -v expect=$expect '
   /^loxcheck property=/ { viol="" }
